@@ -25,7 +25,7 @@ func init() {
 func runC10(p *core.Prog, r *core.Report) {
 	c10R1(p, r)
 	c10R2(p, r, "C10.R2")
-	c10R3(p, r)
+	c10R3(p, r, "C10.R3")
 	c10R4(p, r)
 	c10R5(p, r)
 	staleIndexRule(p, r, "C10.R6")
@@ -596,8 +596,7 @@ func dependsOnHeader(v ssa.Value) bool {
 	return walk(v, 0)
 }
 
-func c10R3(p *core.Prog, r *core.Report) {
-	const rule = "C10.R3"
+func c10R3(p *core.Prog, r *core.Report, rule string) {
 	r.Rule(rule, "layout referrer helpers run only under the layout mutex (requirement propagated to every caller)", 3)
 	li, _ := ocidirLockInfo(p)
 	if li == nil {
